@@ -253,10 +253,6 @@ fn calculate_path(
     bufs: &mut CurveBuffers,
     optimized_len: &mut f64,
 ) {
-    if points.is_empty() {
-        return;
-    }
-
     let CurveBuffers {
         vertices,
         bezier,
@@ -264,8 +260,13 @@ fn calculate_path(
         ..
     } = bufs;
 
+    // Clear first: the buffers may still hold the path of a previous curve.
     path.clear();
     *optimized_len = 0.0;
+
+    if points.is_empty() {
+        return;
+    }
 
     vertices.clear();
     vertices.extend(points.iter().map(|p| p.pos));
